@@ -18,7 +18,7 @@ TEXT = {
  "C08": "value_sums, integral, mean, var (through the percentile pipeline as the code does): theorems pending; correspondence + oracle (exact on dyadic data, 1e-9 otherwise).",
  "C09": "ecdf, percentile, fractile, median, mode, hist, describe: theorems pending; correspondence + oracle on power-of-two totals (exact) and general totals (tolerant).",
  "C10": "values_in_range_is_exactly_the_value_set (iff, for all 8 rows of the bisect-side table, bounded / half-bounded / unbounded windows, using density of the rational domain), sorted without duplicates, min / max are the least / greatest element. Windows need lower < upper (the code rejects others in clip/agg). Correspondence puts window end points on every step point for every row.",
- "C11": "slicer statistics and resample (repaired): theorems pending; correspondence + oracle.",
+ "C11": "a_slice_is_the_restriction, slicer statistics = statistics of the slice (the slicer maps over the intervals), slicer max / min = greatest / least value f takes at a defined point of the interval with the interval's own closedness (via C10 and one-sided limits), resample_is_piecewise_the_statistic (increasing non-overlapping slices; a slice whose statistic is undefined stays undefined). What mean / integral / median / mode of a slice are is C08 / C09; hist over slices, agg([...]) and apply are Python glue covered by the slicecall flavours.",
  "C12": "every_operation_returns_a_minimal_result, minimal_form_is_canonical, identical_decides_equality (iff), bool_is_true_exactly_for_the_constant_one, algebraic_identities_up_to_identical (7 identities). Minimality of scalar-path layering results is covered by the correspondence (raw step tables compared) rather than by a theorem.",
  "C13": "partial: frame rule on the model (a statement changes only its target register; reads and queries change no function; any program) is a theorem, but a functional model cannot exhibit numpy/pandas aliasing: 'results never share mutable state' is decided by mutate-then-observe programs (incl. in-place scalar layers at existing step points) and an object-identity check in the correspondence run.",
  "C14": "the model carries both caches; every_statement_keeps_the_caches_valid (invariant, for every statement), caches_valid_after_any_history, answers_never_stale (a cached answer equals the one computed from the current function alone, after any program), queries_change_no_function. Correspondence: histories interleaving scalar/vector layers (incl. undo, step-free and partly undefined receivers) with the 12 query kinds.",
